@@ -178,3 +178,148 @@ Proof.
   unfold f, rc_all. rewrite <- (map_map (nth_error (chans c)) (option_map fst)).
   unfold n. rewrite map_nth_error_seq, !map_map. apply Permutation_refl.
 Qed.
+
+(* ---------- two-level registry vs the set of open tunnels ---------- *)
+Definition open_apply (o : list (N * N)) (op : reg_op) : list (N * N) :=
+  match op with
+  | ROpen t k => o ++ [(t, k)]
+  | RClose t => match remove_first t o with Some (_, o') => o' | None => o end
+  | _ => o
+  end.
+
+Definition keyed (k : N) (o : list (N * N)) : list (N * N) := filter (fun tk => N.eqb (snd tk) k) o.
+
+Definition RegInv (r : reg) (o : list (N * N)) : Prop :=
+  chans (glob r) = o /\
+  forall k, match key_get k (bykey r) with Some c => chans c = keyed k o | None => keyed k o = [] end.
+
+Lemma key_get_set k k' c m : key_get k' (key_set k c m) = if N.eqb k k' then Some c else key_get k' m.
+Proof.
+  induction m as [|[k0 c0] m IH]; cbn [key_set key_get].
+  - destruct (N.eqb k k'); reflexivity.
+  - destruct (N.eqb_spec k0 k) as [->|H0]; cbn [key_get].
+    + destruct (N.eqb k k'); reflexivity.
+    + rewrite IH. destruct (N.eqb_spec k0 k') as [->|H1]; [|reflexivity].
+      destruct (N.eqb_spec k k'); [congruence|reflexivity].
+Qed.
+
+Lemma keyed_app k a b : keyed k (a ++ b) = keyed k a ++ keyed k b.
+Proof. apply filter_app. Qed.
+
+Lemma remove_first_notin t l : ~ In t (map fst l) -> remove_first t l = None.
+Proof.
+  induction l as [|[t' k'] l IH]; cbn [remove_first map fst]; intro H; [reflexivity|].
+  destruct (N.eqb_spec t' t) as [->|Hne]; [exfalso; apply H; left; reflexivity|].
+  rewrite IH; [reflexivity|]. intro; apply H; right; assumption.
+Qed.
+
+Lemma remove_first_mid t k a b : ~ In t (map fst a) -> remove_first t (a ++ (t, k) :: b) = Some (k, a ++ b).
+Proof.
+  induction a as [|[t' k'] a IH]; cbn [app remove_first map fst]; intro H.
+  - rewrite N.eqb_refl. reflexivity.
+  - destruct (N.eqb_spec t' t) as [->|Hne]; [exfalso; apply H; left; reflexivity|].
+    rewrite IH; [reflexivity|]. intro; apply H; right; assumption.
+Qed.
+
+Lemma keyed_fst_in k a t : In t (map fst (keyed k a)) -> In t (map fst a).
+Proof.
+  intro H. apply in_map_iff in H as [x [Hx Hin]]. apply filter_In in Hin as [Hin _]. apply in_map_iff. eauto.
+Qed.
+
+Lemma rc_remove_chans c t : chans (fst (rc_remove c t)) =
+  match remove_first t (chans c) with Some (_, l) => l | None => chans c end.
+Proof.
+  unfold rc_remove. destruct (remove_first t (chans c)) as [[k l]|]; [|reflexivity].
+  destruct l; reflexivity.
+Qed.
+
+Lemma NoDup_snoc {T} (l : list T) x : NoDup l -> ~ In x l -> NoDup (l ++ [x]).
+Proof.
+  induction l as [|a l IH]; intros Hnd Hn; cbn [app]; [constructor; [intros []|constructor]|].
+  inversion Hnd as [|? ? Ha Hl]; subst. constructor.
+  - intro Hin. apply in_app_or in Hin as [Hin|[<-|[]]]; [contradiction|]. apply Hn. left; reflexivity.
+  - apply IH; [assumption|]. intro; apply Hn; right; assumption.
+Qed.
+
+Lemma reg_step_inv r o op : NoDup (map fst o) -> RegInv r o ->
+  (match op with ROpen t _ => ~ In t (map fst o) | _ => True end) ->
+  RegInv (reg_apply r op) (open_apply o op) /\ NoDup (map fst (open_apply o op)).
+Proof.
+  intros Hnd [Hg Hk] Hwf. destruct op as [t k|t| |k]; cbn [reg_apply open_apply].
+  - split.
+    + split; [cbn; now rewrite Hg|]. intro k'. cbn [reg_open bykey]. rewrite key_get_set.
+      rewrite keyed_app. cbn [keyed filter snd]. fold (keyed k' o).
+      destruct (N.eqb_spec k k') as [->|Hne].
+      * specialize (Hk k'). destruct (key_get k' (bykey r)); cbn [rc_add chans]; rewrite Hk; reflexivity.
+      * rewrite app_nil_r. apply Hk.
+    + rewrite map_app. cbn [map fst]. apply NoDup_snoc; assumption.
+  - (* close *)
+    unfold reg_close. pose proof (remove_first_spec t (chans (glob r))) as S.
+    unfold rc_remove at 1. rewrite Hg in *.
+    destruct (remove_first t o) as [[k o']|] eqn:E.
+    + destruct S as (a & b & Ho & Ho' & Hna). subst o'. clear Hg. subst o.
+      assert (Hnd' : NoDup (map fst (a ++ b))).
+      { rewrite map_app in *. cbn [map fst] in Hnd. apply NoDup_remove_1 in Hnd. assumption. }
+      assert (Hnb : ~ In t (map fst b)).
+      { rewrite map_app in Hnd. cbn [map fst] in Hnd. apply NoDup_remove_2 in Hnd. intro; apply Hnd. apply in_or_app; right; assumption. }
+      split; [|assumption].
+      assert (Hglob : chans (match a ++ b with [] => mkRc [] (idx (glob r)) false (S (avail_gen (glob r)))
+                                              | _ :: _ => mkRc (a ++ b) (idx (glob r)) (avail_closed (glob r)) (avail_gen (glob r)) end) = a ++ b)
+        by (destruct (a ++ b); reflexivity).
+      pose proof (Hk k) as Hkk.
+      destruct (key_get k (bykey r)) as [c|] eqn:Ek.
+      * split; [cbn [glob]; exact Hglob|]. intro k'. cbn [bykey]. rewrite key_get_set.
+        destruct (N.eqb_spec k k') as [->|Hne].
+        -- rewrite rc_remove_chans, Hkk. rewrite (keyed_app k' a ((t, k') :: b)).
+           cbn [keyed filter snd]. rewrite N.eqb_refl. fold (keyed k' a) (keyed k' b).
+           rewrite remove_first_mid; [rewrite keyed_app; reflexivity|].
+           intro Hin. apply Hna. eapply keyed_fst_in; eassumption.
+        -- specialize (Hk k'). rewrite (keyed_app k' a ((t, k) :: b)) in Hk. rewrite (keyed_app k' a b).
+           cbn [keyed filter snd] in Hk.
+           replace (N.eqb k k') with false in Hk by (symmetry; apply N.eqb_neq; assumption).
+           exact Hk.
+      * (* impossible: the key list of an open tunnel exists *)
+        exfalso. rewrite (keyed_app k a ((t, k) :: b)) in Hkk. cbn [keyed filter snd] in Hkk. rewrite N.eqb_refl in Hkk.
+        apply app_eq_nil in Hkk as [_ Hkk]. discriminate.
+    + split; [split; [assumption|exact Hk]|assumption].
+  - (* pick *)
+    unfold reg_pick. destruct (rc_pick (glob r)) as [g' p] eqn:E. cbn [fst].
+    apply pick_member in E as [E _]. split; [split; [cbn [glob]; rewrite E; assumption|exact Hk]|assumption].
+  - (* pick by key *)
+    unfold reg_pick_key. destruct (key_get k (bykey r)) as [c|] eqn:Ek; [|split; [split; assumption|assumption]].
+    destruct (rc_pick c) as [c' p] eqn:E. cbn [fst]. apply pick_member in E as [E _].
+    split; [|assumption]. split; [assumption|]. intro k'. cbn [bykey]. rewrite key_get_set.
+    destruct (N.eqb_spec k k') as [->|Hne]; [|apply Hk]. specialize (Hk k'). rewrite Ek in Hk. now rewrite E.
+Qed.
+
+(* well-formed histories: a tunnel object is registered once (ROpen only for a tunnel that is
+   not currently open); closes and picks are unconstrained *)
+Fixpoint wf_history (o : list (N * N)) (ops : list reg_op) : Prop :=
+  match ops with
+  | [] => True
+  | op :: r => (match op with ROpen t _ => ~ In t (map fst o) | _ => True end) /\ wf_history (open_apply o op) r
+  end.
+
+(* after every such history the tunnels reachable through the handler are exactly the open
+   ones: globally, and per affinity key *)
+Theorem registry_matches_open_tunnels ops : wf_history [] ops ->
+  let r := fold_left reg_apply ops reg_new in
+  let o := fold_left open_apply ops [] in
+  rc_all (glob r) = map fst o /\
+  forall k, reg_key_all r k = map fst (keyed k o) /\ (reg_key_ready r k = true <-> keyed k o <> []).
+Proof.
+  assert (G : forall ops r o, NoDup (map fst o) -> RegInv r o -> wf_history o ops ->
+            RegInv (fold_left reg_apply ops r) (fold_left open_apply ops o)).
+  { induction ops0 as [|op rest IH]; intros r o Hnd Hi Hw; cbn [fold_left]; [exact Hi|].
+    destruct Hw as [Hw1 Hw2]. destruct (reg_step_inv r o op Hnd Hi Hw1) as [Hi' Hnd'].
+    apply IH; assumption. }
+  intro Hw. cbn zeta.
+  assert (H0 : RegInv reg_new []).
+  { split; [reflexivity|]. intro k. reflexivity. }
+  destruct (G ops reg_new [] (NoDup_nil _) H0 Hw) as [Hg Hk].
+  split; [unfold rc_all; now rewrite Hg|]. intro k. specialize (Hk k).
+  unfold reg_key_all, reg_key_ready, rc_all, rc_ready.
+  destruct (key_get k (bykey (fold_left reg_apply ops reg_new))) as [c|].
+  - rewrite Hk. split; [reflexivity|]. destruct (keyed k (fold_left open_apply ops [])); cbn; split; congruence.
+  - rewrite Hk. split; [reflexivity|]. split; [discriminate|congruence].
+Qed.
